@@ -67,6 +67,7 @@ pub struct Cfg {
     pub permute_header: bool,
     pub omit_cols: bool,
     pub max_virtual: usize,
+    pub min_virtual: usize,
     pub max_depth: usize,
     pub max_block: usize,
     pub w_row: u32,
@@ -112,6 +113,7 @@ impl Cfg {
             permute_header: false,
             omit_cols: false,
             max_virtual: 0,
+            min_virtual: 0,
             max_depth: 5,
             max_block: 7,
             w_row: 10,
@@ -962,7 +964,7 @@ impl<'a> PGen<'a> {
 pub fn gen_case(ch: &mut Ch, cfg: &Cfg) -> Built {
     let sigs = gen_signals(ch, cfg);
     // virtual signals
-    let nv = if cfg.max_virtual > 0 { ch.upto(cfg.max_virtual + 1) } else { 0 };
+    let nv = if cfg.max_virtual > 0 { cfg.min_virtual + ch.upto(cfg.max_virtual - cfg.min_virtual + 1) } else { 0 };
     let vnames = pick_names(ch, &VIRT_NAMES, nv);
     let virtuals: Vec<(String, bool)> = vnames.iter().map(|n| (n.clone(), !ch.chance(1, 3))).collect();
     let header = gen_header(ch, cfg, &sigs, &virtuals);
